@@ -363,7 +363,7 @@ func (f *MemFile) ReadDir(n int) (entries []fs.DirEntry, err error) {
 	}
 
 	end := start + n
-	if end > len(f.dirEntries) {
+	if end > len(f.dirEntries) || end < start { // end < start : start + n overflowed.
 		end = len(f.dirEntries)
 	}
 
@@ -442,7 +442,7 @@ func (f *MemFile) Readdirnames(n int) (names []string, err error) {
 	}
 
 	end := start + n
-	if end > len(f.dirNames) {
+	if end > len(f.dirNames) || end < start { // end < start : start + n overflowed.
 		end = len(f.dirNames)
 	}
 
